@@ -48,3 +48,29 @@ Theorem C12_ack_new_read_position : forall ps h T N,
 Proof. exact ack_skips_spec. Qed.
 Example C12_ex_ack : ack_pages [0; 0; 0; 1; 1; 3; 3] 0 4 4 = (1, false) /\ ack_skips [0; 0; 0; 1; 1; 3; 3] 1 4 = 1.
 Proof. split; reflexivity. Qed.
+
+(* ---- the ACK theorem applies to everything the writer can lay out ----
+   The pages in which the headers of the events start, as produced by the framing rule (4-byte header never split
+   across a page end), are non-decreasing and inside the chain: the hypotheses of C12_ack_frees_exactly hold for
+   every list of events, every payload size and every ACK count. *)
+From VF Require Import PQLayoutProofs.
+Theorem C12_ack_on_every_layout : forall P evs N,
+  (0 < P)%nat -> (1 <= N <= length evs)%nat ->
+  let ps := starts P evs in
+  let T := (length (layout P evs) / P)%nat in
+  ack_pages ps 0 T N = (nth (N - 1) ps 0%nat, false) /\
+  (forall i, (N - 1 <= i < length evs)%nat -> (nth (N - 1) ps 0 <= nth i ps 0)%nat) /\
+  mono ps.
+Proof. exact ack_on_layout. Qed.
+Print Assumptions C12_ack_on_every_layout.
+
+Example C12_ex_ack_on_layout :
+  starts 100 [repeat 1%Z 50; repeat 2%Z 60; repeat 3%Z 10; repeat 4%Z 300] = [0; 0; 1; 1]%nat /\
+  ack_pages (starts 100 [repeat 1%Z 50; repeat 2%Z 60; repeat 3%Z 10; repeat 4%Z 300]) 0 4 3 = (1%nat, false).
+Proof. exact ack_on_layout_ex. Qed.
+
+(* the correspondence check runs the binary version of [starts_from] (positions in long chains): it is the same function *)
+Theorem C12_starts_binary_is_starts : forall P, (0 < P)%nat -> forall evs pos,
+  map Z.of_nat (starts_from P pos evs) = starts_fromZ (Z.of_nat P) (Z.of_nat pos) (map (fun e => Z.of_nat (length e)) evs).
+Proof. exact starts_fromZ_spec. Qed.
+Print Assumptions C12_starts_binary_is_starts.
